@@ -35,6 +35,7 @@ RULE = (
     "extension family (<= 2 blocks): every block additionally ends by return / exception / "
     "cancellation and is built either inline or ahead of time (at program start) and entered later"
 )
+RULE += ' Rounds 10-11: WIDE contexts (a block carrying 8 / 9 / 12 distinct state types W0..W11, nested blocks and a later sibling supplying some of them again).'
 ASSUMPTIONS = [
     "lookups inside a top-level `ctx.updated` block outside any scope: MissingContext or the "
     "environment answer are both accepted (the statement leaves it open)",
